@@ -135,7 +135,60 @@ class C04(Spec):
         return us + free
 
 
-_SPECS = {'C01': C01, 'C02': C02, 'C03': C03, 'C04': C04}
+class C05(Spec):
+    design_ref = 'DESIGN.md 4/C05'
+    level_text = ('for every Jacobian-returning operation the analytic Jacobian of the real code is compared, on the full single-argument lattice (rotation 0..pi-1e-6 on both sides of '
+                  'every switch-over, linear parts 0..1e6) and on the reduced pair lattices, with central differences of the extended-precision reference model (which shares no formula with manif); '
+                  'forwarding forms (plus, minus, tangent-side rplus/lplus/plus) are compared bit for bit with their canonical member')
+    rule = ('cells: every element / tangent of the full lattice with rotation <= pi-1e-6 (inverse, log, exp, tangent plus/minus), X x t (rplus, lplus and forwards), X x Y (compose, between, '
+            'rminus, lminus, minus), X x 3 points (act wrt element and point); non-trivial = all rotation angles non-zero; distinct = atom-key tuples')
+    explanation = 'explicit enumeration on the real code; oracle = central differences (h=1e-7) of the long-double reference model, bar 1e-6 (double) / 2e-2 (float) after unit-consistent scaling'
+    assumptions = COMMON_ASSUMPTIONS + ['finite-difference oracle: truncation ~1e-14, round-off ~5e-13 relative, far below the 1e-6 bar']
+
+    def units(self, tier):
+        def sh(g, s):
+            big = {'SGal3': 16, 'Bundle_SE2_SGal3_SE_2_3': 8, 'SE_2_3': 12, 'SE3': 6}
+            n = big.get(g, 2)
+            return n * 2 if tier == 'thorough' else n
+        return lattice_units('checks/c05.cpp', shards=sh)
+
+
+class C06(Spec):
+    design_ref = 'DESIGN.md 4/C06'
+    level_text = ('for every tangent of the full lattice with rotation <= pi-1e-6 (both sides of every switch-over, linear parts 0..1e6) rjac, ljac, rjacinv, ljacinv, smallAdj of the real code are compared '
+                  'with the series sum (-ad)^k/(k+1)!, its LU inverse, expm(ad_t) and commutators of the documented generators evaluated in extended precision; adj() on the full element lattice '
+                  'with conjugation M hat(s) M^-1; Adj(XY)=Adj(X)Adj(Y) on reduced pairs; a per-decade residual profile makes a collapse above a switch-over visible before it fails')
+    rule = ('cells: every lattice tangent (rotation <= pi-1e-6): 9 identities + smallAdj; every lattice element (both hemispheres): adj; reduced x tiny element pairs: Adj homomorphism; '
+            'non-trivial = rotation angle non-zero; distinct = atom keys')
+    explanation = 'explicit enumeration on the real code; oracle = extended-precision series / LU / expm / commutators of the documented generators'
+    assumptions = COMMON_ASSUMPTIONS
+
+    def units(self, tier):
+        def sh(g, s):
+            big = {'SGal3': 8, 'Bundle_SE2_SGal3_SE_2_3': 2, 'SE_2_3': 4, 'SE3': 2}
+            n = big.get(g, 1)
+            return n * 2 if tier == 'thorough' else n
+        us = lattice_units('checks/c06.cpp', shards=sh, defs=['VF_FN_ALL=1'])
+        for u in us:
+            u.bisect = [('all_but_smallAdj', ['VF_FN=1']), ('smallAdj', ['VF_FN=2'])]
+        return us
+
+
+class C07(Spec):
+    design_ref = 'DESIGN.md 4/C07'
+    level_text = ('every generator index in and out of range, every tangent of the full lattice (hat, Vee, norms), reduced x tiny pairs (bracket, inner product, additivity) and 8^3 triples (Jacobi) '
+                  'are evaluated on the real code and compared with the hand-typed documented generator table, matrix commutators and Frobenius products in extended precision; '
+                  'the exact-arithmetic instantiation (ExactQ) decides the identities with zero tolerance')
+    rule = ('cells: indices {-2,-1,0..DoF-1,DoF,DoF+1,INT_MAX,INT_MIN}; full tangent lattice; pairs; triples; non-trivial = non-zero rotation; distinct = atom keys')
+    explanation = 'explicit enumeration on the real code; oracle = documented generator table typed into engine/ref.cpp, commutators, Frobenius inner products'
+    assumptions = COMMON_ASSUMPTIONS
+
+    def units(self, tier):
+        sh = (lambda g, s: 2 if 'SGal3' in g or g == 'SE_2_3' else 1)
+        return lattice_units('checks/c07.cpp', shards=sh)
+
+
+_SPECS = {'C01': C01, 'C02': C02, 'C03': C03, 'C04': C04, 'C05': C05, 'C06': C06, 'C07': C07}
 
 
 def get(prop):
